@@ -160,3 +160,49 @@ fn __verif_n_c14_refs_on_stack() {
         Some((input, why)) => println!("VERIF-N id=N/n_c14_pipeline/refs_on_stack status=fail key=\"{why}\" input=\"{input}\" detail=\"{input}: {why}\" bound=\"{bound}\""),
     }
 }
+
+/// Generated family "frame edge": the locals of a function are filled up to the end of the frame
+/// an i16 offset can address (one filler local of F cells, then single-cell locals), a small struct is
+/// assembled from the highest locals, and builders that add member offsets to a local's offset are
+/// run on it (local_into_box + struct_boxed_deconstruct, store_temp, into_box + unbox). For every F
+/// around 32767 the pipeline has to return (Ok or Err).
+#[test]
+fn __verif_n_c14_frame_edge() {
+    quiet();
+    let rep = |ty: &str, n: usize| std::iter::repeat(ty).take(n).collect::<Vec<_>>().join(", ");
+    let (mut cases, mut ok) = (0u64, 0u64);
+    let mut fails: Vec<(String, String)> = vec![];
+    for filler in [0usize, 100, 32740, 32755, 32758, 32759, 32760, 32761, 32762, 32763, 32764, 32765, 32766, 32767] {
+        // filler = a*4096 + b*256 + c*16 + d
+        let (a, rem) = (filler / 4096, filler % 4096);
+        let (b, rem) = (rem / 256, rem % 256);
+        let (c, d) = (rem / 16, rem % 16);
+        let mut members: Vec<String> = vec![];
+        if a > 0 { members.push(rep("A3", a)); }
+        if b > 0 { members.push(rep("A2", b)); }
+        if c > 0 { members.push(rep("A1", c)); }
+        if d > 0 { members.push(rep("felt252", d)); }
+        for consumer in ["boxed_deconstruct", "store_temp", "box_unbox"] {
+            let tail = match consumer {
+                "boxed_deconstruct" => "lib([8]) -> ([9]);\nsbd([9]) -> ([10], [11], [12]);\ndrop_bf([11]) -> ();\ndrop_bf([12]) -> ();\ndrop_ub([1]) -> ();\nst_bf([10]) -> ([10]);\nreturn([10]);\nfoo@0([0]: felt252) -> (BoxF);",
+                "store_temp" => "st_s([8]) -> ([9]);\ndrop_s([9]) -> ();\ndrop_ub([1]) -> ();\nreturn();\nfoo@0([0]: felt252) -> ();",
+                _ => "ib([8]) -> ([9]);\nub([9]) -> ([10]);\nst_s([10]) -> ([10]);\ndrop_s([10]) -> ();\ndrop_ub([1]) -> ();\nreturn();\nfoo@0([0]: felt252) -> ();",
+            };
+            let src = format!("type felt252 = felt252;\ntype A1 = Struct<ut@A1, {a1}>;\ntype A2 = Struct<ut@A2, {a2}>;\ntype A3 = Struct<ut@A3, {a3}>;\ntype Big = Struct<ut@Big{big}>;\ntype S = Struct<ut@S, felt252, felt252, felt252>;\ntype UBig = Uninitialized<Big>;\ntype UF = Uninitialized<felt252>;\ntype BoxS = Box<S>;\ntype BoxF = Box<felt252>;\n\
+libfunc al_big = alloc_local<Big>;\nlibfunc al_f = alloc_local<felt252>;\nlibfunc fin = finalize_locals;\nlibfunc dupf = dup<felt252>;\nlibfunc sl = store_local<felt252>;\nlibfunc mk = struct_construct<S>;\nlibfunc lib = local_into_box<S>;\nlibfunc sbd = struct_boxed_deconstruct<S>;\nlibfunc drop_bf = drop<BoxF>;\nlibfunc drop_ub = drop<UBig>;\nlibfunc st_bf = store_temp<BoxF>;\nlibfunc st_s = store_temp<S>;\nlibfunc drop_s = drop<S>;\nlibfunc ib = into_box<S>;\nlibfunc ub = unbox<S>;\n\
+al_big() -> ([1]);\nal_f() -> ([2]);\nal_f() -> ([3]);\nfin() -> ();\ndupf([0]) -> ([0], [4]);\nsl([2], [0]) -> ([5]);\nsl([3], [4]) -> ([6]);\ndupf([5]) -> ([5], [7]);\nmk([6], [5], [7]) -> ([8]);\n{tail}\n",
+                a1 = rep("felt252", 16), a2 = rep("A1", 16), a3 = rep("A2", 16), big = if members.is_empty() { String::new() } else { format!(", {}", members.join(", ")) });
+            cases += 1;
+            let what = format!("a filler local of {filler} cells, then two felt locals, a 3-felt struct from the highest locals, consumer {consumer}");
+            let h = std::thread::Builder::new().stack_size(256 << 20).spawn(move || run_pipeline(&src)).unwrap();
+            match h.join().unwrap_or_else(|_| Err("panic (thread)".into())) {
+                Ok(_) => ok += 1,
+                Err(msg) => { if !fails.iter().any(|f: &(String, String)| f.1 == msg) { fails.push((what, msg)); } }
+            }
+        }
+    }
+    for (k, (input, msg)) in fails.iter().enumerate() {
+        println!("VERIF-N id=N/n_c14_pipeline/frame_edge:{} status=fail key=\"{}\" input=\"{}\" detail=\"real pipeline panicked on {}: {}\" bound=\"frame-edge family\"", k + 1, msg.chars().take(80).collect::<String>().replace('"', "'").replace('\n', " "), input, input, msg.replace('"', "'").replace('\n', " "));
+    }
+    if fails.is_empty() { println!("VERIF-N id=N/n_c14_pipeline/frame_edge status=ok cases={cases} distinct={ok} bound=\"14 filler sizes around the 32767-cell frame limit x 3 consumers of a struct assembled from the highest locals ({ok} returned Ok/Err)\""); }
+}
